@@ -189,6 +189,14 @@ class RefSlice:
         self.ref = ref
 
 
+class BoxCell:
+    """`Box::new_uninit()` as the `vec![..]` macro uses it: storage that is written once and turned into a Vec"""
+    __slots__ = ("value",)
+
+    def __init__(self):
+        self.value = None
+
+
 class Thunk:
     """an element of a lazily mapped iterator: closure applied to the item when the element is consumed"""
     __slots__ = ("cl", "x", "done", "val")
@@ -240,6 +248,8 @@ class Evaluator:
         for e in proj:
             if isinstance(e, tuple):
                 e = list(e)      # projections stored inside a reference key are tuples
+            if isinstance(val, BoxCell):
+                continue            # the box, its pointer fields and its storage are one object here
             if e == "*":
                 if isinstance(val, tuple) and len(val) == 3 and val[0] == "const" and str(val[1]).startswith('b"'):
                     val = parse_byte_string(val[1])     # a byte-string literal: the pointee is the array of its bytes
@@ -249,6 +259,8 @@ class Evaluator:
                     continue
                 if isinstance(val, (BufView, RefSlice, CursorV)) or (isinstance(val, tuple) and val and all(isinstance(q, int) and not isinstance(q, bool) for q in val)):
                     continue            # a slice reference and the slice it points to are one value here
+                if isinstance(val, (int, float)) and not isinstance(val, bool):
+                    continue            # a reference to a scalar that a modelled iterator adaptor already read (`*iter.max().unwrap()`)
                 if not isinstance(val, Ref):
                     raise Unsupported("deref of non-reference %r" % (val,))
                 k = val.key
@@ -371,6 +383,9 @@ class Evaluator:
         # writes through projections: only tuple/struct field of a local, or deref of local ref
         if p[1] == "*":
             base = fr.env.get(p[0])
+            if isinstance(base, BoxCell):
+                base.value = val
+                return
             if isinstance(base, ElemRef) and len(p) == 2:
                 base.buf[base.i] = val
                 return
@@ -551,6 +566,9 @@ class Evaluator:
             return self.place_ref(fr, rv[2])
         if k == "cast":
             v = self.operand(fr, rv[2])
+            if isinstance(v, BoxCell):
+                # the pointer checks rustc inserts in debug builds look at the address: a non-null, aligned one
+                return 4096 if rv[1] == "Transmute" and rv[3] == "usize" else v
             if rv[1] == "IntToFloat" and isinstance(v, int) and not isinstance(v, bool):
                 return float(v)
             if rv[1] in ("IntToInt", "IntToFloat", "FloatToFloat", "Transmute", "PtrToPtr", "Subtype") or rv[1].startswith("Coerce"):
@@ -879,6 +897,12 @@ class Evaluator:
             if isinstance(args[0], tuple) and len(args[0]) == 3 and args[0][0] == "rangei":
                 return self._as_iter(args[0])
         a0 = self.deref_val(args[0]) if args and isinstance(args[0], Ref) and args[0].key[0] == "local" else (args[0] if args else None)
+        if isinstance(a0, tuple) and a0 and args and isinstance(args[0], Ref) and args[0].key[0] == "local" and not (len(a0) == 3 and a0[0] in ("rangei", "const")) \
+                and short.split("::")[-1] in ("copy_within", "swap", "fill", "copy_from_slice", "index_mut", "iter_mut", "split_at_mut", "chunks_mut", "chunks_exact_mut", "reverse"):
+            # an array value that is about to be mutated in place: give it a buffer and keep that in the local
+            a0 = BufView(list(a0))
+            r_ = args[0]
+            self.write_place(self.frames[r_.key[1]], [r_.key[2]] + [list(x) if isinstance(x, tuple) else x for x in r_.key[3:]], a0)
         if isinstance(a0, BufView):
             last = short.split("::")[-1]
             if last in ("len",) and len(args) == 1:
@@ -932,6 +956,22 @@ class Evaluator:
                 k = args[1]
                 m = a0.n // k if "exact" in last else -(-a0.n // k)
                 return PyIter([a0.sub(i * k, min(a0.n, (i + 1) * k)) for i in range(m)])
+            if last == "copy_within" and len(args) == 3 and isinstance(args[2], int):
+                r = args[1]
+                tys = " ".join(c.get("args") or [])
+                if isinstance(r, Struct) and all(isinstance(q, int) for q in r.fields):
+                    lo, hi = (0, r.fields[0] + 1) if "RangeToInclusive<" in tys and len(r.fields) == 1 else (0, r.fields[0]) if "RangeTo<" in tys and len(r.fields) == 1 \
+                        else (r.fields[0], a0.n) if "RangeFrom<" in tys and len(r.fields) == 1 else (r.fields[0], r.fields[1]) if len(r.fields) == 2 else (None, None)
+                elif isinstance(r, tuple) and len(r) == 3 and r[0] == "rangei":
+                    lo, hi = r[1], r[2] + 1
+                else:
+                    lo = hi = None
+                if lo is not None and 0 <= lo <= hi <= a0.n and args[2] + (hi - lo) <= a0.n:
+                    vals = [a0.get(i) for i in range(lo, hi)]
+                    for i, v in enumerate(vals):
+                        a0.set(args[2] + i, v)
+                    return ()
+                raise Unsupported("copy_within out of range")
             if last == "swap" and len(args) == 3 and all(isinstance(q, int) for q in args[1:]):
                 x, y = a0.get(args[1]), a0.get(args[2])
                 a0.set(args[1], y)
@@ -941,6 +981,14 @@ class Evaluator:
                 for i in range(a0.n):
                     a0.set(i, args[1])
                 return ()
+        if short.startswith("alloc::boxed::Box::<T>::new_uninit") and not args:
+            return BoxCell()
+        if short.startswith("alloc::boxed::box_assume_init_into_vec_unsafe") and len(args) == 1 and isinstance(args[0], BoxCell):
+            v = args[0].value
+            v = v.items() if isinstance(v, BufView) else v
+            if isinstance(v, (tuple, list)):
+                return BufView(list(v))
+            raise Unsupported("vec! of %r" % (v,))
         # std::io::Cursor<&[u8]> and the Read calls on it
         if sh0 == "std::io::cursor::Cursor" and args:
             last = short.split("::")[-1]
@@ -1053,6 +1101,22 @@ class Evaluator:
                     return Enum("core::result::Result", 1, "Err", list(x.fields))
                 out_.append(x.fields[0])
             return Enum("core::result::Result", 0, "Ok", [BufView(out_)])
+        if sh0 == "core::iter::traits::iterator::Iterator::collect" and len(args) == 1 and isinstance(args[0], PyIter) and c.get("args") \
+                and str(c["args"][-1]).startswith(("std::collections::HashSet<", "std::collections::hash::set::HashSet<")):
+            vals = []
+            for x in self._drain(args[0]):
+                x = x.buf[x.i] if isinstance(x, ElemRef) else x
+                if x not in vals:
+                    vals.append(x)
+            return BufView(vals)        # a set is kept as the list of its distinct items
+        if sh0 == "core::convert::TryFrom::try_from" and len(args) == 1 and isinstance(args[0], int) and not isinstance(args[0], bool) and c.get("args"):
+            ity = str(c["args"][0])
+            bits = {"u8": 8, "u16": 16, "u32": 32, "u64": 64, "usize": 64, "i8": 8, "i16": 16, "i32": 32, "i64": 64, "isize": 64}.get(ity)
+            if bits:
+                lo, hi = (0, (1 << bits) - 1) if ity.startswith("u") else (-(1 << (bits - 1)), (1 << (bits - 1)) - 1)
+                if lo <= args[0] <= hi:
+                    return Enum("core::result::Result", 0, "Ok", [args[0]])
+                return Enum("core::result::Result", 1, "Err", [UNKNOWN])
         if sh0 == "core::iter::traits::iterator::Iterator::collect" and len(args) == 1 and isinstance(args[0], PyIter) and "Vec<" in " ".join(str(q) for q in (c.get("args") or [])):
             vals = [x.buf[x.i] if isinstance(x, ElemRef) else x for x in self._drain(args[0])]
             return BufView(vals)
@@ -1117,7 +1181,7 @@ class Evaluator:
                    "core::iter::traits::iterator::Iterator::max", "core::iter::traits::iterator::Iterator::min", "core::iter::traits::iterator::Iterator::count") \
                 and args and isinstance(args[0], PyIter):
             fm = sh0.split("::")[-1]
-            rest = self._drain(args[0]) if fm in ("sum", "count", "max", "min") else args[0].items[args[0].pos:]
+            rest = [x.buf[x.i] if isinstance(x, ElemRef) else x for x in self._drain(args[0])] if fm in ("sum", "count", "max", "min") else args[0].items[args[0].pos:]
             args[0].pos = len(args[0].items)
             if fm == "sum":
                 return sum(rest)
